@@ -734,12 +734,12 @@ impl<'a> BumpBox<'a, str> {
             return unsafe { BumpBox::from_raw(non_null::str_from_utf8(lhs)) };
         }
 
+        self.assert_char_boundary(start);
+        self.assert_char_boundary(end);
+
         if start == end {
             return BumpBox::EMPTY_STR;
         }
-
-        self.assert_char_boundary(start);
-        self.assert_char_boundary(end);
 
         let head_len = start;
         let tail_len = len - end;
